@@ -1,4 +1,5 @@
 mod auth;
+mod capi;
 mod chain;
 mod dlog;
 mod expr;
@@ -37,6 +38,8 @@ fn main() {
         "params-replay" => params::cmd_replay(&args[2], &args[3]),
         "syntax-replay" => syntax::cmd_replay(&args[2], &args[3]),
         "keys-replay" => keycodec::cmd_replay(&args[2], &args[3], args[4].parse().unwrap()),
+        "capi-child" => capi::cmd_child(&args[2]),
+        "capi-replay" => capi::cmd_replay(&args[2], &args[3]),
         "auth-replay" => auth::cmd_replay(&args[2], &args[3]),
         "dlog-replay" => dlog::cmd_replay(&args[2], &args[3]),
         "chain-honest" => chain::cmd_honest(&args[2], &args[3]),
